@@ -14,14 +14,16 @@ ArithExact(e) ==
 NoPolicyPanic(o) == \A i \in 2..5 : ~IsPanic(o[i])
 
 \* the assigning form of an operator (op=) must give the exact result too whenever it fits
-AltOk(e, x, L) == ("alt" \in DOMAIN e) => \A i \in 1..Len(e.alt) : PlainOk(e.alt[i], x, L)
+AltOk(e, x, L) == /\ (("alt" \in DOMAIN e) => \A i \in 1..Len(e.alt) : PlainOk(e.alt[i], x, L))
+                  \* the same operation on Wrapping<F>: the exact result modulo 2^w, a panic only for a zero divisor
+                  /\ (("w" \in DOMAIN e) => WrapOk(e.w, x, L))
 
 AcceptArith(e, P) ==
   LET x == ArithExact(e)  L == e.L  o == e.o IN
   CASE P = "C01" -> WhenFitsOk(o, x, L) /\ AltOk(e, x, L)
     [] P = "C02" -> PoliciesOk(o, x, L) /\ (x.zd \/ NoPolicyPanic(o)) /\ AltOk(e, x, L)
     [] P = "C06" -> IF e.op \in {"int", "frac"} /\ LI(L) = 0 THEN TRUE
-                    ELSE PlainOk(o[1], x, L) /\ PoliciesOk(o, x, L)
+                    ELSE PlainOk(o[1], x, L) /\ PoliciesOk(o, x, L) /\ AltOk(e, x, L)
     [] P = "C07" -> PlainOk(o[1], x, L) /\ PoliciesOk(o, x, L) /\ (x.zd \/ NoPolicyPanic(o)) /\ AltOk(e, x, L)
 
 (* ------------------------------ C03 ------------------------------------ *)
@@ -112,7 +114,7 @@ AcceptFmt(e) ==
 PairSlots(ou, oc, Allowed(_)) ==
   /\ Len(ou) = Len(oc)
   /\ \A i \in 1..Len(ou) : ou[i] = oc[i] \/ (IsPanic(oc[i]) /\ ~IsPanic(ou[i]) /\ Allowed(i))
-SameCall(u, c) == [x \in (DOMAIN u) \ {"pr", "o", "o2", "r", "it", "alt"} |-> u[x]] = [x \in (DOMAIN c) \ {"pr", "o", "o2", "r", "it", "alt"} |-> c[x]]
+SameCall(u, c) == [x \in (DOMAIN u) \ {"pr", "o", "o2", "r", "it", "alt", "w"} |-> u[x]] = [x \in (DOMAIN c) \ {"pr", "o", "o2", "r", "it", "alt", "w"} |-> c[x]]
 AcceptPair(e) ==
   LET u == e.u  c == e.c IN
   /\ u.k = c.k
@@ -122,6 +124,7 @@ AcceptPair(e) ==
              /\ PairSlots(u.o, c.o, LAMBDA i : i = 1 /\ (x.zd \/ ~Fits(x.R, u.L)
                                                        \/ (u.op \in {"int", "frac"} /\ LI(u.L) = 0)))
              /\ (("alt" \in DOMAIN u) => PairSlots(u.alt, c.alt, LAMBDA i : x.zd \/ ~Fits(x.R, u.L)))
+             /\ (("w" \in DOMAIN u) => u.w = c.w)
        [] u.k = "conv" ->
              LET x == Exact(ConvR(ZJ(u.a), LF(u.A), LF(u.B))) IN
              /\ SameCall(u, c)
